@@ -24,7 +24,9 @@ CONSTANTS
                   \*   jitter: "none" (Jitter -1) | "default" (unset -> 0.5) | "quarter" (0.25)
                   \*   body: "nil" | "nobody" | "getbody" | "nogetbody" | "failgetbody"
     Bodies,       \* response bodies a successful attempt may carry (token sequences)
-    Ends,         \* how a response body may end: subset of {"clean", "error", "errctx", "errwrapeof", "cancel", "cancel_eof"}
+    Ends,         \* how a response body may end: subset of {"clean", "error", "errctx", "errwrapeof", "cancel", "cancel_eof", "cancel_cb"}
+                  \*   "cancel_cb": a callback cancels the context while the first event of this connection is being
+                  \*   dispatched; the body then ends cleanly (nothing is cancelled when the body holds no event)
                   \*   "errwrapeof": a read error that wraps io.EOF (a transport wrapper's): a read error, not a clean end
                   \*   "cancel_eof": the body ends cleanly at the very instant the context is cancelled
                   \*   "errctx": a read error that is a context error (a transport's own deadline) while the
@@ -120,7 +122,7 @@ RetryUnits(v) == LET ds == StripZeros(DigitSeq(v)) IN IF Len(ds) > 2 THEN HUGE E
 \* a successful connection: the backoff is reset, the stream is read to its end
 Read ==
     /\ pc = "read"
-    /\ LET st == Interpret(cur.body, IF cur.end = "cancel_eof" THEN "clean" ELSE cur.end, "conn", lastEventID)
+    /\ LET st == Interpret(cur.body, IF cur.end \in {"cancel_eof", "cancel_cb"} THEN "clean" ELSE cur.end, "conn", lastEventID)
            r  == IF st.retries = <<>> THEN 0 ELSE RetryUnits(st.retries[Len(st.retries)])
        IN /\ events' = events \o st.out
           /\ lastEventID' = IF st.out = <<>> THEN lastEventID ELSE st.out[Len(st.out)].id
@@ -132,7 +134,8 @@ Read ==
                                   [] st.status = "read_error" -> IF cur.end = "errctx" THEN "errctx" ELSE IF cur.end = "errwrapeof" THEN "wrapeof" ELSE "boom")
                   /\ pc' = "next" /\ UNCHANGED result
     /\ everConnected' = TRUE
-    /\ cur' = [cur EXCEPT !.ctxdone = (cur.end = "cancel_eof")]
+    /\ cur' = [cur EXCEPT !.ctxdone = (cur.end = "cancel_eof" \/
+                                        (cur.end = "cancel_cb" /\ Interpret(cur.body, "clean", "conn", lastEventID).out # <<>>))]
     /\ UNCHANGED <<cfg, isRetry, attempts, reqs, waits, hist>>
 
 Grow(i) == IF cfg.maxInterval > 0 /\ i * cfg.mulNum >= cfg.maxInterval * cfg.mulDen THEN cfg.maxInterval
